@@ -219,7 +219,8 @@ The statement-by-statement models of `centrality.py` return exactly the definiti
   (`brandes_wei_correct`, `betweennessWei_correct`);
 * `edge_betweenness_bin` (BFS loop, same queue): every binary matrix
   (`edge_betweenness_bin_correct`, by lock-step simulation of the weighted loop);
-* `betweenness_bin` (matrix powers `NPd`, `NSPd`, `NSP`, `L`, back-propagation `DP`): every binary
+* `betweenness_bin` (level-by-level extension of the shortest paths `NPd = NSPd·G`, `NSPd`, `NSP`,
+  `L`, back-propagation `DP` — the repaired loop, which no longer forms walk counts): every binary
   matrix with empty diagonal (`betweennessBin_correct`).
 
 These are DESIGN.md §4 C08 (4) `brandes_correct` / `betweennessBin_correct` at full strength; what
@@ -258,15 +259,21 @@ theorem betweennessBin_correct (hbin : ∀ i j, L.get i j ≤ 1) (hdiag : ∀ i,
     betweennessBin L = .ok (bcSpec L) :=
   Bct.Between.betweennessBin_correct hbin hdiag
 
-/-- the matrix powers of `betweenness_bin` count walks: on a binary matrix the `k`-th power is the
-shortest-path count for pairs at distance `k` and `0` for pairs farther apart or disconnected -/
-theorem matrix_power_counts (hbin : ∀ i j, L.get i j ≤ 1) (k : ℕ) (s t : Fin n) :
-    ((dist L).get s t = some k → wc L k s t = (sigma L).get s t) ∧
-    (((dist L).get s t = none ∨ ∃ j, (dist L).get s t = some j ∧ k < j) → wc L k s t = 0) :=
-  wc_spec hbin k s t
+/-- the path-counting step of `betweenness_bin` (`NPd = np.dot(NSPd, G); NSPd = NPd * (L == 0)`):
+extending the shortest paths of length `d` by one connection gives exactly the shortest-path counts
+of the pairs at distance `d + 1` and `0` for pairs farther apart or disconnected (binary matrices).
+All intermediate values are shortest-path counts, never walk counts. -/
+theorem shortest_path_extension (hbin : ∀ i j, L.get i j ≤ 1) (d : ℕ) (hd1 : 1 ≤ d) (i j : Fin n)
+    (hij : i ≠ j) :
+    ((dist L).get i j = some (d + 1) →
+      (∑ w, (if i ≠ w ∧ (dist L).get i w = some d then (sigma L).get i w else 0) * L.get w j) =
+        (sigma L).get i j) ∧
+    (((dist L).get i j = none ∨ ∃ k, (dist L).get i j = some k ∧ d + 1 < k) →
+      (∑ w, (if i ≠ w ∧ (dist L).get i w = some d then (sigma L).get i w else 0) * L.get w j) = 0) :=
+  nspd_extend hbin d hd1 i j hij
 
 /-- **the node vector returned by `edge_betweenness_bin` equals `betweenness_bin`'s result** (BFS
-model vs matrix-power model), binary matrices with empty diagonal -/
+model vs level-extension model), binary matrices with empty diagonal -/
 theorem edge_node_vector_bin (hbin : ∀ i j, L.get i j ≤ 1) (hdiag : ∀ i, L.get i i = 0) :
     (brandes false L).map Prod.snd = betweennessBin L := by
   rw [brandes_bin_correct L hbin, Bct.Between.betweennessBin_correct hbin hdiag]; rfl
@@ -438,10 +445,10 @@ example : (brandes true diamond).toOption.map (fun r => r.2[(1 : Fin 4)]) = some
 example : (brandes true wtriangle).toOption.map (fun r => r.1.get 0 2) = some (1 / 2) := by decide +kernel
 example : (betweennessWei diamond).toOption.map (fun r => r[(1 : Fin 4)]) = some (1 / 2) := by decide +kernel
 example : (brandes false diamond).toOption.map (fun r => r.1.get 0 1) = some (3 / 2) := by decide +kernel
--- betweennessBin_correct / matrix_power_counts: hypotheses satisfiable, non-trivial value
+-- betweennessBin_correct / shortest_path_extension: hypotheses satisfiable, non-trivial value
 example : (∀ i j, diamond.get i j ≤ 1) ∧ (∀ i, diamond.get i i = 0) := by decide
 example : (betweennessBin diamond).toOption.map (fun r => r[(2 : Fin 4)]) = some (1 / 2) := by decide +kernel
-example : wc diamond 2 0 3 = 2 ∧ (dist diamond).get 0 3 = some 2 := by decide
+example : (dist diamond).get 0 3 = some (1 + 1) ∧ (sigma diamond).get 0 3 = 2 ∧ (0 : Fin 4) ≠ 3 := by decide
 
 -- rational lengths: `wtriangle / 2` has lengths 1/2, 1/2, 1 with the exact tie 1/2 + 1/2 = 1
 example : lenQ wtriangle 2 0 1 = 1 / 2 ∧ lenQ wtriangle 2 0 2 = 1 := by
